@@ -100,6 +100,10 @@ def build(repo=None, variants=("plain", "asan"), quiet=False):
     if os.path.exists(stamp):
         have = set(open(stamp).read().split())
         if set(variants) <= have:
+            try:
+                os.utime(bdir)          # "recently used": the cache bound below removes the least recently used builds
+            except OSError:
+                pass
             return bdir
     t0 = time.time()
     libs, tools = repo_sources(repo)
@@ -170,7 +174,7 @@ def build(repo=None, variants=("plain", "asan"), quiet=False):
     # keep the cache bounded
     olds = sorted((d for d in glob.glob(os.path.join(BUILD_ROOT, "*")) if os.path.isdir(d)),
                   key=os.path.getmtime)
-    for d in olds[:-4]:
+    for d in olds[:-6]:
         if d != bdir:
             shutil.rmtree(d, ignore_errors=True)
     if not quiet:
